@@ -104,9 +104,10 @@ func main() {
 		if rng.Chance(1, 6) {
 			q = gen.FieldQuery(rng)
 		}
+		// different goroutines must be able to parse with DIFFERENT default fields at the same time
 		df := ""
-		if rng.Chance(1, 4) {
-			df = "df"
+		if rng.Chance(1, 2) {
+			df = gen.Pick(rng, []string{"df", "body", "title", "d f", "x'y", "field3", "field6"})
 		}
 		var e *expr.Expression
 		var err error
@@ -131,6 +132,24 @@ func main() {
 		pool = append(pool, en)
 	}
 
+	// hand-built expressions (raw values in range boundaries, constructor-built trees): no query text, only the
+	// operations on the expression itself; "using an expression never modifies it" must hold for these too
+	for _, e := range handBuilt() {
+		en := &entry{e: e, canon: impl.CanonExpr(e), base: map[string]string{}}
+		for _, op := range exprOps {
+			en.base[op] = call(op, en)
+			if now := impl.CanonExpr(en.e); now != en.canon {
+				fail(*out, map[string]any{"kind": "an operation modified the expression it was given", "op": op, "before": en.canon, "after": now})
+			}
+		}
+		for _, op := range exprOps {
+			if again := call(op, en); again != en.base[op] {
+				fail(*out, map[string]any{"kind": "repeated sequential call differs (hand-built expression)", "op": op, "expr": en.canon, "first": en.base[op], "second": again})
+			}
+		}
+		pool = append(pool, en)
+	}
+
 	type diff struct {
 		Op, Query, DF, Want, Got string
 		Goroutine, Round         int
@@ -147,6 +166,9 @@ func main() {
 			for i := 0; i < *rounds; i++ {
 				en := pool[r.Intn(len(pool))]
 				op := opNames[r.Intn(len(opNames))]
+				if en.q == "" {
+					op = exprOps[r.Intn(len(exprOps))]
+				}
 				got := call(op, en)
 				if got != en.base[op] {
 					mu.Lock()
@@ -174,6 +196,23 @@ func main() {
 	}
 	if len(diffs) > 0 || len(modified) > 0 {
 		os.Exit(1)
+	}
+}
+
+var exprOps = []string{"Render", "RenderParam", "String", "GoString", "Marshal", "Validate"}
+
+func handBuilt() []*expr.Expression {
+	col := func(s string) *expr.Expression { return expr.Lit(expr.Column(s)) }
+	rb := func(mn, mx any, incl bool) *expr.Expression {
+		return &expr.Expression{Left: col("a"), Op: expr.Range, Right: &expr.RangeBoundary{Min: mn, Max: mx, Inclusive: incl}}
+	}
+	return []*expr.Expression{
+		rb(1, 10, true), rb("*", 5, true), rb("b", "*", false), rb(1.5, 2.5, false), rb(expr.Lit(1), expr.Lit("*"), true),
+		expr.Rang(col("a"), 1, 10, true), expr.Rang(col("a"), "*", "z", false),
+		expr.Eq(col("a"), "b*"), expr.Eq(col("a"), "/re/"), expr.Eq(col("a"), 5), expr.AND(expr.Eq(col("a"), "x"), expr.NOT(expr.Eq(col("b"), 1.5))),
+		expr.IN(col("a"), expr.LIST([]*expr.Expression{expr.Lit("x"), expr.Lit(2)})),
+		expr.BOOST(expr.Eq(col("a"), "b"), 2.5), expr.FUZZY(expr.Eq(col("a"), "b"), 2), expr.MUST(expr.Lit("x")), expr.MUSTNOT(expr.Lit("y")),
+		{Left: "raw", Op: expr.Literal}, {Left: col("a"), Op: expr.Equals, Right: "rawright"},
 	}
 }
 
